@@ -102,6 +102,13 @@ SPECS = [
              "translate_arg(0, 'msgid') == 'mid' and translate_arg(0, 'default') == 'x'",
              "translate_arg(1, 'msgid') == 'y' and translate_arg(1, 'default') == 'y'",
          ], raises={'*': {'ensures': ["False"]}}, serves=['C10']),
+    dict(id='S-I18nAttributes-implicit-interp',
+         # an attribute that is configured as implicitly translatable AND named in i18n:attributes, with
+         # an interpolated value: still translated exactly once (with the explicit id)
+         text='A<a title="Hello ${e1}" i18n:attributes="title mid">x</a>B',
+         options={'implicit_i18n_attributes': ['title']},
+         ensures=["evals(1) == 1", "translate_calls() == 1", "translate_arg(0, 'msgid') == 'mid'"],
+         raises={'*': {'ensures': ["raised('e1') or translate_calls() >= 0"]}}, serves=['C10']),
 ]
 
 CONTRACTS = schema_contracts(SPECS)
